@@ -19,7 +19,7 @@
         <coded weightedParameterDerivative, d theta> + sum_r <coded weightedInputDerivative_r, dX_r>
    for every direction; taking unit directions gives every partial derivative. *)
 From Coq Require Import List Arith Bool Lia Ring ZArith.
-From SharkV Require Import C04Model.
+From SharkV Require Import C04Model C04Aux.
 Import ListNotations.
 
 Section Proofs.
@@ -451,28 +451,255 @@ Proof.
   rewrite (fr_concat nout nin) by auto.
   (* induction over the batch *)
   subst Dl X. clear SG Lb RXF.
-  revert C RC; induction XD as [|x XD IH]; intros [|c C] RC; simpl.
-  - rewrite fr_zmat. destruct (F (db q)); [simpl; ring|]. simpl. rewrite dot_zeros_l. ring.
-  - rewrite fr_zmat. destruct (F (db q)); [simpl; ring|]. simpl. rewrite dot_zeros_l. ring.
-  - rewrite fr_zmat. destruct (F (db q)); [simpl; ring|]. simpl. rewrite dot_zeros_l. ring.
+  assert (DC : forall x0 X0 c0 C0, lin_deltaA l (x0 :: X0) (c0 :: C0) =
+               amul (lact l) (lin_pre zero add mul l x0) (lin_evalA l x0) c0 :: lin_deltaA l X0 C0) by reflexivity.
+  assert (ZC : fr (zmat zero nout nin) (map S' (dW q)) +
+               dotA (match lb l with [] => [] | _ => zerosA nout end) (S' (db q)) + zero = zero).
+  { rewrite fr_zmat. destruct (lb l); cbn [dot]; [ring|]. rewrite dot_zeros_l. ring. }
+  revert C RC; induction XD as [|x XD IH]; intros [|c C] RC.
+  - cbn [map fr gradW colsum lin_delta map2]. exact (eq_sym ZC).
+  - cbn [map fr gradW colsum lin_delta map2]. exact (eq_sym ZC).
+  - cbn [map fr gradW colsum lin_delta map2]. exact (eq_sym ZC).
   - pose proof (Forall_inv RX) as Hx. pose proof (Forall_inv_tail RX) as RX'.
-    pose proof (Forall_inv RC) as Hc. pose proof (Forall_inv_tail RC) as RC'. simpl in Hx, Hc.
-    rewrite (layer_row_tangent nin nout q x c WF) by auto. rewrite (IH RX' C RC').
-    fold l.
+    pose proof (Forall_inv RC) as Hc. pose proof (Forall_inv_tail RC) as RC'. cbn beta in Hx, Hc.
+    change (map F (x :: XD)) with (F x :: map F XD). rewrite DC.
     set (d := amul (lact l) (lin_pre zero add mul l (F x)) (lin_evalA l (F x)) c).
+    cbn [map fr gradW colsum].
+    rewrite (layer_row_tangent nin nout q x c WF Hx). rewrite (IH RX' C RC').
+    fold l. fold d.
     assert (Ld : length d = nout).
-    { assert (H := RD [F x] [c]). simpl in H. fold d in H.
+    { assert (H := RD [F x] [c]). rewrite DC in H.
       assert (H' : rows nout [d]) by (apply H; constructor; auto). inversion H'; auto. }
     assert (SO : shape nout nin (outerA d (F x))).
-    { pose proof (outer_shape d (F x)) as Q. rewrite Ld, map_length, Hx in Q. exact Q. }
-    rewrite (fr_madd nout nin); auto.
-    + destruct WF as [L [R B]].
-      change (lb l) with (F (db q)).
-      destruct (db q) as [|b0 bq] eqn:Eb; simpl.
-      * ring.
-      * destruct B as [B|B]; [discriminate|].
-        rewrite dot_vadd_l; [ring|]. rewrite colsum_length by (apply RD; auto). auto.
-    + apply gradW_shape; [apply RD; auto|apply rows_map_F; auto].
+    { pose proof (outer_shape d (F x)) as Q. rewrite Ld, map_length in Q.
+      assert (E : @length (A * A) x = nin) by exact Hx. rewrite E in Q. exact Q. }
+    rewrite (fr_madd nout nin _ _ _ SO) by (apply gradW_shape; [apply RD; auto|apply rows_map_F; auto]).
+    destruct WF as [L [R B]].
+    change (lb l) with (F (db q)).
+    destruct (db q) as [|b0 bq] eqn:Eb; cbn [map].
+    + ring.
+    + destruct B as [B|B]; [discriminate|].
+      rewrite dot_vadd_l; [ring|]. rewrite colsum_length by (apply RD; auto). auto.
+Qed.
+
+
+(* ---------------- concatenation: chain rule through the stored intermediates ---------------- *)
+Lemma dmul_comm p q : dmul p q = dmul q p.
+Proof. unfold dmul. f_equal; ring. Qed.
+
+Lemma dotD_comm u v : dotD u v = dotD v u.
+Proof. revert v; induction u as [|x u IH]; intros [|y v]; simpl; auto. rewrite IH, dmul_comm. reflexivity. Qed.
+
+Lemma lin_batch_is_mapD (l : layer D) X : lin_eval_batch dzero dadd dmul l X = map (lin_evalD l) X.
+Proof.
+  unfold lin_eval_batch, lin_pre_batch, lin_eval, lin_pre, mm_nt, mv. rewrite !map_map.
+  apply map_ext. intros x. do 2 f_equal. apply map_ext. intros w. apply dotD_comm.
+Qed.
+
+Lemma lin_delta_rows nin nout q X C : wf_dlayer nin nout q -> rows nout C -> rows nout (lin_deltaA (val q) X C).
+Proof.
+  intros WF. revert C; induction X as [|x0 X0 IH]; intros [|c0 C0] H; simpl; try (constructor; fail).
+  inversion H; subst. constructor; [|apply IH; auto].
+  change (amul (lact (val q)) (lin_pre zero add mul (val q) x0) (lin_evalA (val q) x0) c0)
+    with (map2 (fun ci yi => ci * dphi_d q yi) c0 (lin_evalA (val q) x0)).
+  rewrite map2_vmul. rewrite vmul_length; auto. rewrite map_length.
+  rewrite (lin_eval_length q nin (length c0)); auto.
+Qed.
+
+Lemma lin_wpd_length nin nout q X C :
+  wf_dlayer nin nout q -> rows nin X -> rows nout C -> length (lin_wpdA nin nout (val q) X C) = length (tan q).
+Proof.
+  intros WF RX RC. unfold lin_wpd, tan. rewrite !app_length.
+  rewrite (concat_length nout nin) by (apply gradW_shape; auto; apply (lin_delta_rows nin); auto).
+  destruct WF as [L [R B]].
+  rewrite (concat_length nout nin) by (split; [rewrite map_length; auto|apply rows_map_S; auto]).
+  f_equal. simpl. destruct (db q) eqn:E; simpl; auto.
+  rewrite colsum_length by (apply (lin_delta_rows nin); [split; [auto|split; [auto|rewrite E; exact B]]|auto]).
+  destruct B as [B|B]; [discriminate|]. simpl in B. rewrite map_length. symmetry; exact B.
+Qed.
+
+Definition dnet := list (nat * nat * dlayer).
+Definition upN (N : dnet) : net D := map (fun e => (fst (fst e), snd (fst e), up (snd e))) N.
+Definition valN (N : dnet) : net A := map (fun e => (fst (fst e), snd (fst e), val (snd e))) N.
+Definition tanN (N : dnet) : list A := flat_map (fun e => tan (snd e)) N.
+Fixpoint wf_dnet (nin : nat) (N : dnet) (nout : nat) : Prop :=
+  match N with
+  | [] => nin = nout
+  | (i, o, q) :: N' => i = nin /\ wf_dlayer i o q /\ wf_dnet o N' nout
+  end.
+
+Lemma net_back_rows N : forall nin nout X C, wf_dnet nin N nout -> rows nout C ->
+  rows nin (snd (net_back zero add mul (valN N) X C)).
+Proof.
+  induction N as [|[[i o] q] N IH]; intros nin nout X C WF RC; simpl in *.
+  - subst; exact RC.
+  - destruct WF as [-> [WL WN]].
+    destruct (net_back zero add mul (valN N) (lin_eval_batchA (val q) X) C) as [g CY] eqn:E. simpl.
+    unfold lin_wid. unfold rows. rewrite Forall_map. apply Forall_forall. intros d _.
+    apply vm_length. destruct WL as [_ [R _]]. apply rows_map_F; auto.
+Qed.
+
+Lemma lin_evalD_length nin nout q x : wf_dlayer nin nout q -> length (lin_evalD (up q) x) = nout.
+Proof.
+  intros WF. rewrite <- (map_length (@fst A A)). rewrite lin_evalD_fst. apply (lin_eval_length q nin); auto.
+Qed.
+
+Theorem concat_chain_rule N : forall nin nout (XD : list (list D)) C,
+  wf_dnet nin N nout -> rows nin XD -> rows nout C ->
+  let X := map F XD in
+  fr C (map S' (net_eval_batch dzero dadd dmul (upN N) XD)) =
+    dotA (fst (net_back zero add mul (valN N) X C)) (tanN N) +
+    fr (snd (net_back zero add mul (valN N) X C)) (map S' XD).
+Proof.
+  induction N as [|[[i o] q] N IH]; intros nin nout XD C WF RX RC X; simpl in *.
+  - ring.
+  - destruct WF as [-> [WL WN]].
+    rewrite lin_batch_is_mapD.
+    set (XD1 := map (lin_evalD (up q)) XD).
+    assert (R1 : rows o XD1).
+    { unfold XD1, rows. rewrite Forall_map. apply Forall_forall. intros x _. apply (lin_evalD_length nin); auto. }
+    assert (E1 : map F XD1 = lin_eval_batchA (val q) X).
+    { unfold XD1, X. rewrite lin_batch_is_map, !map_map. apply map_ext. intros x. apply lin_evalD_fst. }
+    specialize (IH o nout XD1 C WN R1 RC). cbv zeta in IH. rewrite E1 in IH.
+    pose proof (net_back_rows N o nout (lin_eval_batchA (val q) X) C WN RC) as RCY.
+    destruct (net_back zero add mul (valN N) (lin_eval_batchA (val q) X) C) as [g CY] eqn:E. simpl in *.
+    rewrite IH.
+    pose proof (layer_batch_tangent nin o q XD CY WL RX RCY) as LT. cbv zeta in LT. fold XD1 in LT. rewrite LT.
+    fold X. unfold tanN. simpl. fold (tanN N).
+    rewrite dot_app by (apply lin_wpd_length; auto; apply rows_map_F; auto).
+    ring.
+Qed.
+
+
+(* ---------------- Linear activations: the tangent is the first-order Taylor coefficient ----------------
+   The model code is run on symbolic expressions whose leaves carry (value, direction); interpreting the
+   result at  value + t * direction  gives the perturbed weighted output sum, interpreting it with dual
+   numbers gives the tangent, and the difference is t^2 times an explicit polynomial remainder. *)
+Inductive pexpr := PLeaf (x d : A) | PAdd (e1 e2 : pexpr) | PMul (e1 e2 : pexpr).
+Fixpoint pval0 (e : pexpr) : A :=
+  match e with PLeaf x _ => x | PAdd a b => pval0 a + pval0 b | PMul a b => pval0 a * pval0 b end.
+Fixpoint pvalt (t : A) (e : pexpr) : A :=
+  match e with PLeaf x d => x + t * d | PAdd a b => pvalt t a + pvalt t b | PMul a b => pvalt t a * pvalt t b end.
+Fixpoint pdual (e : pexpr) : D :=
+  match e with PLeaf x d => (x, d) | PAdd a b => dadd (pdual a) (pdual b) | PMul a b => dmul (pdual a) (pdual b) end.
+Fixpoint prem (t : A) (e : pexpr) : A :=
+  match e with
+  | PLeaf _ _ => zero
+  | PAdd a b => prem t a + prem t b
+  | PMul a b =>
+      let pa := pdual a in let pb := pdual b in let ra := prem t a in let rb := prem t b in
+      fst pa * rb + snd pa * snd pb + ra * fst pb + t * (snd pa * rb + ra * snd pb) + t * t * (ra * rb)
+  end.
+
+Theorem taylor_pexpr t e :
+  fst (pdual e) = pval0 e /\ pvalt t e = pval0 e + t * snd (pdual e) + (t * t) * prem t e.
+Proof.
+  induction e as [x d|a [IHa1 IHa2] b [IHb1 IHb2]|a [IHa1 IHa2] b [IHb1 IHb2]]; simpl in *.
+  - split; [auto|ring].
+  - split; [congruence|]. rewrite IHa2, IHb2. ring.
+  - split; [congruence|]. rewrite IHa2, IHb2, <- IHa1, <- IHb1. ring.
+Qed.
+
+Definition inj (p : D) : pexpr := PLeaf (fst p) (snd p).
+Definition cstE (c : A) : pexpr := PLeaf c zero.
+Definition zE : pexpr := PLeaf zero zero.
+Definition idE : act pexpr := ew_act PMul (fun x => x) (fun x => x).
+Definition netE (N : dnet) : net pexpr :=
+  map (fun e => (fst (fst e), snd (fst e),
+                 {| lW := map (map inj) (dW (snd e)); lb := map inj (db (snd e)); lact := idE |})) N.
+(* the weighted output sum as a symbolic expression *)
+Definition sumE (N : dnet) (XD : list (list D)) (C : list (list A)) : pexpr :=
+  wsum zE PAdd PMul (map (map cstE) C) (map (net_eval zE PAdd PMul (netE N)) (map (map inj) XD)).
+(* the network with every weight / offset (w, dw) replaced by f (w, dw), Linear activations *)
+Definition netAt {B} (mulB : B -> B -> B) (f : D -> B) (N : dnet) : net B :=
+  map (fun e => (fst (fst e), snd (fst e),
+                 {| lW := map (map f) (dW (snd e)); lb := map f (db (snd e)); lact := ew_act mulB (fun x => x) (fun x => x) |})) N.
+Definition linear_dnet (N : dnet) : Prop :=
+  Forall (fun e => dphi_v (snd e) = (fun x => x) /\ dphi_d (snd e) = (fun _ => one)) N.
+
+Lemma fr_wsum C Y : fr C Y = wsum zero add mul C Y.
+Proof. revert Y; induction C as [|c C IH]; intros [|y Y]; simpl; auto; try (rewrite IH; reflexivity). Qed.
+
+Lemma map_id' {B} (u : list B) : map (fun x => x) u = u.
+Proof. apply map_id. Qed.
+Lemma map_ext_id {B} (f : B -> B) u : (forall x, f x = x) -> map f u = u.
+Proof. intros H. induction u as [|x u IH]; simpl; [reflexivity|]. rewrite H, IH. reflexivity. Qed.
+
+(* interpretation of sumE under any homomorphism h of pexpr *)
+Lemma sumE_hom {B} (zB : B) (aB mB : B -> B -> B) (h : pexpr -> B) :
+  h zE = zB -> (forall x y, h (PAdd x y) = aB (h x) (h y)) -> (forall x y, h (PMul x y) = mB (h x) (h y)) ->
+  forall N XD C,
+  h (sumE N XD C) =
+  wsum zB aB mB (map (map (fun c => h (cstE c))) C)
+       (map (fun xd => net_eval zB aB mB (netAt mB (fun p => h (inj p)) N) (map (fun p => h (inj p)) xd)) XD).
+Proof.
+  intros hz ha hm N XD C. unfold sumE.
+  rewrite (hom_wsum _ _ zE PAdd PMul zB aB mB h hz ha hm). rewrite !map_map.
+  f_equal; [apply map_ext; intros c; rewrite map_map; reflexivity|].
+  apply map_ext. intros xd.
+  rewrite (hom_net_eval _ _ zE PAdd PMul zB aB mB h hz ha hm (ew_act mB (fun x => x) (fun x => x)));
+    [|intros u; apply map_id'|].
+  - rewrite map_map. unfold hN, netE, netAt. rewrite map_map.
+    apply net_eval_map_ext. intros e _. simpl. repeat split.
+    + rewrite map_map. apply map_ext. intros w. rewrite map_map. reflexivity.
+    + rewrite map_map. reflexivity.
+  - intros e He u. unfold netE in He. apply in_map_iff in He. destruct He as [e0 [<- _]]. apply map_id'.
+Qed.
+
+Lemma pdual_inj p : pdual (inj p) = p.
+Proof. destruct p; reflexivity. Qed.
+
+Lemma fst_wsumD C Y : fst (wsum dzero dadd dmul C Y) = wsum zero add mul (map F C) (map F Y).
+Proof. revert Y; induction C as [|c C IH]; intros [|y Y]; simpl; auto. rewrite IH, dotD_fst. reflexivity. Qed.
+
+Lemma snd_wsumD_cst C Y : snd (wsum dzero dadd dmul (map (map cst) C) Y) = fr C (map S' Y).
+Proof.
+  revert Y; induction C as [|c C IH]; intros [|y Y]; simpl; auto. rewrite IH, dotD_snd. f_equal.
+  assert (E2 : forall c0 : list A, S' (map cst c0) = zerosA (length c0)).
+  { intros c0. induction c0 as [|x c0 IHc]; simpl; [reflexivity|]. rewrite IHc. reflexivity. }
+  specialize (E2 c).
+  assert (E1 : F (map cst c) = c) by (rewrite map_map; apply map_id').
+  rewrite E1, E2, dot_zeros_l. ring.
+Qed.
+
+Theorem linear_net_taylor N nin nout (XD : list (list D)) C t :
+  linear_dnet N -> wf_dnet nin N nout -> rows nin XD -> rows nout C ->
+  let X := map F XD in
+  let S0 := fr C (net_eval_batch zero add mul (valN N) X) in
+  let St := fr C (net_eval_batch zero add mul (netAt mul (re t) N) (map (map (re t)) XD)) in
+  let g := net_back zero add mul (valN N) X C in
+  St = S0 + t * (dotA (fst g) (tanN N) + fr (snd g) (map S' XD)) + (t * t) * prem t (sumE N XD C).
+Proof.
+  intros LN WF RX RC X S0 St g.
+  destruct (taylor_pexpr t (sumE N XD C)) as [T1 T2].
+  assert (mc : forall x y, x * y = y * x) by (intros; ring).
+  (* perturbed value *)
+  assert (Et : pvalt t (sumE N XD C) = St).
+  { rewrite (sumE_hom zero add mul (pvalt t)); [|simpl; ring|reflexivity|reflexivity].
+    unfold St. etransitivity; [|symmetry; apply fr_wsum]. rewrite (net_batch_is_map_gen _ zero add mul mc). rewrite map_map.
+    unfold netAt. f_equal.
+    apply map_ext_id. intros c. apply map_ext_id. intros x. simpl. ring. }
+  (* dual value *)
+  assert (Ed : pdual (sumE N XD C) = wsum dzero dadd dmul (map (map cst) C) (net_eval_batch dzero dadd dmul (upN N) XD)).
+  { rewrite (sumE_hom dzero dadd dmul pdual); [|reflexivity|reflexivity|reflexivity].
+    rewrite (net_batch_is_map_gen _ dzero dadd dmul dmul_comm).
+    f_equal. apply map_ext. intros xd.
+    assert (Ex : map (fun p => pdual (inj p)) xd = xd) by (apply map_ext_id; intros; apply pdual_inj).
+    rewrite Ex. unfold netAt, upN. apply net_eval_map_ext. intros e He. simpl. repeat split.
+    - apply map_ext_id. intros w. apply map_ext_id. intros; apply pdual_inj.
+    - apply map_ext_id. intros; apply pdual_inj.
+    - intros u. rewrite map_id'. symmetry. apply map_ext_id. intros p.
+      pose proof (proj1 (Forall_forall _ _) LN e He) as [Hv Hd]. unfold phiD. rewrite Hv, Hd. destruct p; simpl. f_equal. ring. }
+  (* value at t = 0 *)
+  assert (E0 : pval0 (sumE N XD C) = S0).
+  { rewrite <- T1, Ed, fst_wsumD. unfold S0. etransitivity; [|symmetry; apply fr_wsum]. f_equal.
+    - rewrite map_map. apply map_ext_id. intros c. rewrite map_map. apply map_id'.
+    - rewrite (net_batch_is_map_gen _ dzero dadd dmul dmul_comm), (net_batch_is_map_gen _ zero add mul mc).
+      unfold X. rewrite !map_map. apply map_ext. intros xd.
+      clear - Rth LN. revert xd. unfold upN, valN. induction N as [|[[i o] q] N' IH]; intros xd; simpl; auto.
+      inversion LN; subst. rewrite IH by auto. f_equal. apply lin_evalD_fst. }
+  rewrite <- Et, T2, E0, Ed, snd_wsumD_cst.
+  rewrite (concat_chain_rule N nin nout XD C WF RX RC). reflexivity.
 Qed.
 
 End Proofs.
